@@ -59,8 +59,12 @@ PROPS = {
                 witness='mapper', rests_on=['C19', 'C03']),
     'C09': dict(units=['mapper'], level='proof', trusted_base=TB_MAPPER, assumptions=AS_MAPPER, witness='mapper', rests_on=['C03']),
     'C10': dict(units=['loop'], level='proof', trusted_base=TB_LOOP, assumptions=AS_LOOP, witness='loop', extras=['real_driver_pipes_c10']),
-    'C11': dict(units=['loop'], level='proof', trusted_base=TB_LOOP, assumptions=AS_LOOP, witness='loop', rests_on=['C09']),
-    'C12': dict(units=['loop'], level='proof', trusted_base=TB_LOOP, assumptions=AS_LOOP, witness='loop'),
+    # dep_units: the loop is verified against the CONTRACT of Mapper::step / Mapper::release_all; whether the mapper still meets that contract is
+    # decided by the mapper unit, which therefore runs with these two checks as well (C11 uses step's repeat request, tagged C09; C12 uses
+    # release_all's "nothing is held afterwards", tagged C06 C12; C11's "waits at most delay_ms" needs the repeat values of a loaded layout to be
+    # non-negative, which the converter's check_mapping_is_usable guarantees under a C11 label)
+    'C11': dict(units=['loop'], dep_units=['mapper', 'converter'], level='proof', trusted_base=TB_LOOP, assumptions=AS_LOOP, witness='loop', rests_on=['C09']),
+    'C12': dict(units=['loop'], dep_units=['mapper'], level='proof', trusted_base=TB_LOOP, assumptions=AS_LOOP, witness='loop'),
     'C20': dict(units=['loop'], level='proof', trusted_base=TB_LOOP, assumptions=AS_LOOP, witness='loop', extras=['real_driver_pipes_c20']),
     'C14': dict(units=['converter', 'mapper', 'glue'], level='proof', trusted_base=TB_MAPPER + TB_CONV[4:], assumptions=AS_CONV + AS_MAPPER, witness='loader'),
     'C13': dict(units=['converter'], level='proof', trusted_base=TB_CONV + [
